@@ -3,7 +3,7 @@ CHECKS = {
     "C07": {
         "text": "Sem.tla's functional model family F (exogenous noise shared across worlds) gives every conjunction of counterfactual atoms its probability (multi-world terms, PTermMulti); CFMachine.tla model-checks the family against the axioms of structural counterfactuals (effectiveness, composition, exclusion, normalisation) and against the ID reference on every 3-node ADMG. id_star is run on a fixed TLC-generated family of events (CFGen.tla: every single atom and a graph-dependent slice of all two-atom conjunctions, <= 2 signed subscripts) and TLC validates the outcome: an expression must equal P(event) on every base assignment under a reading the event permits (CF.tla Readings), Zero only for impossible events, Unidentifiable accepted, anything else rejected.",
         "ref": "DESIGN.md section 4/C07, 14.4",
-        "note": "The implementation has known unrepaired defects (about a third of the two-atom events): failing inputs are listed by (graph, event) -> semantic signature in known_findings_C07.json; a listed input failing with a different signature or any unlisted input failing is a violation. Family fixed, independent of VERIF_SEED. 3-node graphs only.",
+        "note": "Design level: IDStar.tla is a reference ID* (make-cg with Lemma 24/25, lines 1-9, sound partial version) model-checked against family F on all ordered 3-node ADMGs x (single atoms + a slice of pairs); every record's verdict also says whether the reference answers, and the evidence cross-tabulates y0's outcome with it. The implementation has known unrepaired defects (about a third of the two-atom events): failing inputs are listed by (graph, event) -> semantic signature in known_findings_C07.json; a listed input failing with a different signature or any unlisted input failing is a violation. Family fixed, independent of VERIF_SEED. 3-node graphs only.",
         "technique": "TLA+ specification of counterfactual semantics (functional SCMs) model-checked by TLC; TLC-generated events; trace validation of implementation outputs by TLC; known findings keyed by input and semantic signature",
     },
     "C08": {
